@@ -52,7 +52,9 @@ ASSUMPTIONS = [
     'numeric values are finite floats (NaN != NaN would make dictionary equality meaningless); action/threshold '
     'values of controls are floats (an int 1 prints as "1" and returns as "1.0")',
     'simple controls are the EPANET forms (AT TIME, AT CLOCKTIME, IF tank level / junction pressure ABOVE/BELOW) built '
-    'with the public Control/SimTimeCondition/TimeOfDayCondition/ValueCondition classes; rules use any relation, '
+    'with the public Control/SimTimeCondition/TimeOfDayCondition/ValueCondition classes, and - one conditional control in '
+    'four - a form EPANET has no control line for (reservoir head, tank head, tank pressure, link flow; recorded open '
+    'finding, filed under its own root-cause bucket); rules use any relation, '
     'AND/OR nesting, ELSE and PRIORITY; tank conditions use inequalities only (TankLevelCondition refuses = and <>)',
     'a fire-fighting demand is only added with a duration that covers it (with an empty horizon binary_pattern '
     'returns an empty Pattern object, which is falsy, so that to_dict cannot even report its name)',
@@ -518,6 +520,24 @@ def build(case, info=None):
             wn.add_control(cname, C.Control(C.ValueCondition(node, attr, c[3], float(c[4])), act, name=cname))
             feats.add('control.cond_%s' % attr)
             feats.add('action.%s' % act._attribute)
+        elif k == 'condx':
+            # a simple Control (not a Rule) whose condition is not one of EPANET's simple-control forms: the head of a
+            # reservoir or tank, the pressure of a tank, an attribute of a link (all constructible through the API)
+            act = action(c[1])
+            form = c[5]
+            if act is None:
+                continue
+            if form == 'link_flow':
+                obj, attr = wn.get_link(nm['links'][c[2] % len(nm['links'])]), 'flow'
+            else:
+                kind_ = 'Reservoir' if form == 'reservoir_head' else 'Tank'
+                cands = [n for n in nm['nodes'] if wn.get_node(n).node_type == kind_]
+                if not cands:
+                    continue
+                obj, attr = wn.get_node(cands[c[2] % len(cands)]), ('pressure' if form == 'tank_pressure' else 'head')
+            wn.add_control(cname, C.Control(C.ValueCondition(obj, attr, c[3], float(c[4])), act, name=cname))
+            feats.add('control.cond_not_epanet_form:%s' % form)
+            feats.add('action.%s' % act._attribute)
         elif k == 'rule':
             then = [a for a in (action(x) for x in c[2]) if a is not None]
             els = [a for a in (action(x) for x in c[3]) if a is not None]
@@ -902,9 +922,21 @@ def check(case):
                               % (diffs[:4],)))
 
     nontrivial = bool([t for t in tags if not t.startswith('names:')]) and len(text) > 0
+    forms = sorted(t.split(':', 1)[1] for t in tags if t.startswith('control.cond_not_epanet_form:'))
+    if found and forms:
+        # one root cause (recorded open finding): a simple Control is serialised as an EPANET control line, which can
+        # only say 'NODE <junction or tank> ABOVE/BELOW x'; any other condition is lost (from_dict raises or reads
+        # another attribute).  Raises and differences inside the controls of such a case are filed under that root
+        # cause; every other bucket of the case keeps its name.
+        def rc(b):
+            base = b.split(':', 1)[1] if (':' in b and not b.startswith(('raises', 'changed', 'lost'))) else b
+            if 'raises' in base or 'control' in base or b.endswith(':differs'):
+                return 'control_condition_not_epanet_form/' + forms[0]
+            return b
+        found = [(rc(b), det) for b, det in found]
     if found:
         # exceptions first; the regrouping bucket (a recorded open finding) last so that it never masks another bucket
-        found.sort(key=lambda bd: (2 if 'condition.grouping' in bd[0] else
+        found.sort(key=lambda bd: (2 if ('condition.grouping' in bd[0] or bd[0].startswith('control_condition_not_epanet_form')) else
                                    0 if '/raises' in bd[0] or bd[0].startswith('raises') else 1, bd[0]))
         bucket, detail = found[0]
         more = [b for b, _ in found[1:]]
@@ -1251,6 +1283,9 @@ def strategy(draw, tier='quick'):
                 ctrls.append(['time', draw(act), draw(_time)])
             elif k == 'clock':
                 ctrls.append(['clock', draw(act), draw(_clock)])
+            elif k == 'cond' and draw(st.integers(0, 3)) == 0:
+                ctrls.append(['condx', draw(act), draw(st.integers(0, 9)), draw(st.sampled_from(['>', '<'])), draw(thr),
+                              draw(st.sampled_from(['reservoir_head', 'tank_head', 'tank_pressure', 'link_flow']))])
             elif k == 'cond':
                 ctrls.append(['cond', draw(act), draw(st.integers(0, 9)), draw(st.sampled_from(['>', '<'])),
                               draw(thr)])
